@@ -62,7 +62,7 @@ KINDS = ['assign', 'emit', 'val', 'str', 'for', 'def', 'call', 'if', 'raise', 'r
          'raise_group', 'raise_chained', 'raise_nomsg', 'blank_run', 'blank_edges', 'oneline_for', 'oneline_raise',
          'oneline_ied', 'oneline_silent', 'two_options_ws', 'skip_two_options_ws', 'echo_then_comment',
          'semi_echo_comment', 'comment_then_echo', 'option_on_continuation', 'skip_comment_first',
-         'marker_text', 'marker_midline', 'marker_midline_blank']
+         'marker_text', 'marker_midline', 'marker_midline_blank', 'skip_behind_blank', 'ied_behind_blank']
 # compound statements written on one line: the interactive interpreter wants a bare '...' line behind them
 ONELINE = ('oneline_for', 'oneline_raise', 'oneline_ied', 'oneline_silent')
 
@@ -194,6 +194,11 @@ def gen_example(rng, i, defined):
         src = ['try:', '    boom(%d)' % i, 'except E:', '    emit(-%d)' % i]
     elif k == 'pv':
         src = ['pv(%d)' % i]
+    elif k == 'skip_behind_blank':
+        # the option stands on the last line of a statement that holds an empty source line (inside a string)
+        src = ["boom(%d, '''first" % i, '', "second''')  # doctest: +SKIP"]
+    elif k == 'ied_behind_blank':
+        src = ["boom(%d, '''detail" % i, '', "%d''')  # doctest: +IGNORE_EXCEPTION_DETAIL" % i]
     elif k == 'marker_text':
         # the program prints the very characters of the marker: under the standard module the want equals the output
         src = ['print("<BLANKLINE>" * (T.append(%d) is None))' % i]
@@ -262,17 +267,17 @@ def make(seed):
         want = []
         for src in chunks:
             term = rng.random() < 0.3 and len(src) > 1
-            if len(src) == 1 and k not in ('skip', 'comment_ex', 'skip_two_options_ws', 'skip_comment_first'):
+            if len(src) == 1 and k not in ('skip', 'comment_ex', 'skip_two_options_ws', 'skip_comment_first', 'skip_behind_blank'):
                 # the bare '...' the interactive interpreter shows after a one-line compound statement (rarely pasted
                 # after a simple statement too); xdoctest reads it as the first line of the want
                 if rng.random() < (0.8 if k in ONELINE else 0.05):
                     term = True
                     feats.add('terminated-one-liner' + (':raises' if k in ('oneline_raise', 'oneline_ied') else ''))
-            if k in ('skip', 'comment_ex', 'skip_two_options_ws', 'skip_comment_first'):
+            if k in ('skip', 'comment_ex', 'skip_two_options_ws', 'skip_comment_first', 'skip_behind_blank'):
                 out, before, value, exc = '', '', None, None
             else:
                 out, before, value, exc = repl_run(ns, src)
-            ex_lines = ['>>> ' + src[0]] + ['... ' + ln for ln in src[1:]]
+            ex_lines = ['>>> ' + src[0]] + [('... ' + ln) if ln else rng.choice(['...', '... ']) for ln in src[1:]]
             if term:
                 ex_lines.append('...')
                 feats.add('terminated-continuation')
@@ -281,7 +286,7 @@ def make(seed):
                 if rng.random() < 0.5:
                     want.append('  File "<stdin>", line 1, in <module>')
                     feats.add('stack-lines')
-                if k in ('ied', 'ied_dot', 'oneline_ied'):
+                if k in ('ied', 'ied_dot', 'oneline_ied', 'ied_behind_blank'):
                     want.append('E: other detail')
                 else:
                     from xv import models
